@@ -3,7 +3,7 @@
 
 A *feature* is a piece of syntax with the edition that introduced it.  The minifier has a fixed set
 of rewrites that can introduce a feature the input did not use; each is guarded by
-`minVersion(edition)` — or is not guarded at all (`guardOf = none`: the property shorthand, K-C16-3).
+`minVersion(edition)` (the property shorthand since 2252d4e, former K-C16-3).
 `emits` says when the output uses a feature.
 -/
 namespace Verif.Model.Options
@@ -29,23 +29,20 @@ def Feature.since : Feature → Nat
 def minVersion (target : Nat) (v : Nat) : Bool := target == 0 || v ≤ target
 
 /-- the guard literal at the rewrite site of a feature (the regenerated facts `Gen.JsVersionGates` must show exactly
-    these); `none`: the rewrite site does not consult the version -/
-def guardOf : Feature → Option Nat
-  | .templateLiteral => some 2015
-  | .propertyShorthand => none
-  | .exponent => some 2016
-  | .optionalCatch => some 2019
-  | .nullish => some 2020
-  | .optionalChain => some 2020
+    these) -/
+def guardOf : Feature → Nat
+  | .templateLiteral => 2015
+  | .propertyShorthand => 2015
+  | .exponent => 2016
+  | .optionalCatch => 2019
+  | .nullish => 2020
+  | .optionalChain => 2020
 
 /-- does the rewrite that introduces `f` fire for this target? -/
-def gatePasses (target : Nat) (f : Feature) : Bool :=
-  match guardOf f with
-  | some g => minVersion target g
-  | none => true
+def gatePasses (target : Nat) (f : Feature) : Bool := minVersion target (guardOf f)
 
 /-- does the output use feature `f`?  Either the input already did (printed through), or the rewrite
-    that introduces it is applicable and its guard (if any) passes -/
+    that introduces it is applicable and its guard passes -/
 def emits (target : Nat) (f : Feature) (inputHas rewriteApplicable : Bool) : Bool :=
   inputHas || (rewriteApplicable && gatePasses target f)
 
